@@ -44,7 +44,7 @@ def run(ctx):
         specs.append((H, ps, rng.bytes_(HASHES[H])))
     keys = make_keys(ctx, specs, proj_class)
     hists = [Hist(k, rng, i) for i, k in enumerate(keys)]
-    max_steps = 100 if ctx.tier == "quick" else 1600
+    max_steps = getattr(ctx, "max_steps_override", None) or (100 if ctx.tier == "quick" else 1600)
     nontrivial = 0
     while any(not h.done for h in hists):
         cases = []
